@@ -10,6 +10,7 @@ CONSTANT DocMenu <- DMg2
 CONSTANT Lims <- L012
 CONSTANT MaxSteps = 10
 CONSTANT Thin = 1
+CONSTANT KeepRoleHist = FALSE
 CONSTANT PageGap = TRUE
 SPECIFICATION SimSpec
 INVARIANT SimExport
